@@ -93,6 +93,19 @@ def judgePreCookie (r : Reaction) : Option (String × String) :=
     some ("amplification", s!"{r.sent.foldl (· + ·) 0} bytes sent in answer to {r.requestBytes} bytes")
   else none
 
+/-- GM/T 0024: the only protocol version is 1.1 (0x0101); SSL/TLS version numbers (0x03xx)
+are not TLCP and anything below 1.1 does not exist -/
+def versionAcceptable (v : Nat) : Bool := v ≥ 0x0101 && v / 256 != 3
+
+/-- a ClientHello whose version cannot be served may be refused instead: one alert, not larger
+than the request, nothing computed; the connection is over -/
+def judgeRefusal (r : Reaction) : Option (String × String) :=
+  if r.keyOps != 0 then some ("private-key-before-cookie", s!"{r.keyOps} private-key operations before a valid cookie")
+  else if r.types != [] || r.alerts != 1 then some ("not-only-hvr", s!"unsupported version answered with handshake types {r.types} and {r.alerts} alerts")
+  else if r.sent.foldl (· + ·) 0 > r.requestBytes then
+    some ("amplification", s!"{r.sent.foldl (· + ·) 0} bytes sent in answer to {r.requestBytes} bytes")
+  else none
+
 /-- a datagram the server must ignore (wrong source address): nothing is sent, nothing computed -/
 def judgeIgnored (r : Reaction) : Option (String × String) :=
   if r.sent != [] then some ("answers-foreign-address", "a datagram from another address was answered")
